@@ -1,19 +1,25 @@
 use crate::engine::*;
 use serde_json::Value;
 
+pub mod c02;
+pub mod c03;
 pub mod c04;
 pub mod c05;
 pub mod c08;
 pub mod c09;
+pub mod c11;
 pub mod c16;
 pub mod c17;
 
 pub fn run(ctx: &Ctx) -> Option<PropReport> {
     Some(match ctx.prop.as_str() {
+        "C02" => c02::run(ctx),
+        "C03" => c03::run(ctx),
         "C04" => c04::run(ctx),
         "C05" => c05::run(ctx),
         "C08" => c08::run(ctx),
         "C09" => c09::run(ctx),
+        "C11" => c11::run(ctx),
         "C16" => c16::run(ctx),
         "C17" => c17::run(ctx),
         _ => return None,
@@ -22,10 +28,13 @@ pub fn run(ctx: &Ctx) -> Option<PropReport> {
 
 pub fn replay(ctx: &Ctx, sub: &str, case: &Value) -> Result<(), Fail> {
     match ctx.prop.as_str() {
+        "C02" => c02::replay(ctx, sub, case),
+        "C03" => c03::replay(ctx, sub, case),
         "C04" => c04::replay(ctx, sub, case),
         "C05" => c05::replay(ctx, sub, case),
         "C08" => c08::replay(ctx, sub, case),
         "C09" => c09::replay(ctx, sub, case),
+        "C11" => c11::replay(ctx, sub, case),
         "C16" => c16::replay(ctx, sub, case),
         "C17" => c17::replay(ctx, sub, case),
         _ => Err(Fail::new("replay-unsupported", "no replay for this property")),
